@@ -29,10 +29,13 @@ BIN = os.path.join(VERIF, "bin")
 EVID = os.path.join(VERIF, "evidence")
 REPLAYS = os.path.join(VERIF, "replays")
 REPO = os.environ.get("VERIF_REPO", "/repo")
+ALT = ""
 if REPO != "/repo":
-    # sensitivity self-test against a scratch copy: nothing it writes is evidence about /repo
-    EVID = os.path.join(BIN, "alt", "evidence")
-    REPLAYS = os.path.join(BIN, "alt", "replays")
+    # sensitivity self-test against a scratch copy: nothing it writes is evidence about /repo. The names
+    # carry the scratch directory's name, so several scratch targets can be checked at the same time.
+    ALT = "alt-" + re.sub(r"[^A-Za-z0-9_.-]", "_", os.path.basename(os.path.normpath(REPO)))
+    EVID = os.path.join(BIN, ALT, "evidence")
+    REPLAYS = os.path.join(BIN, ALT, "replays")
 GO = "go1.26.8"
 
 ENV = dict(os.environ)
@@ -46,7 +49,7 @@ PROPS = {
     "C08": dict(level="exploration", race=False, quick_count=12000, quick_budget=150, thorough_budget=600),
     "C09": dict(level="exploration", race=False, quick_count=6000, quick_budget=150, thorough_budget=600),
     "C10": dict(level="fault_enumeration", race=True, quick_count=300, quick_budget=150, thorough_budget=600),
-    "C12": dict(level="exploration", race=False, quick_count=8000, quick_budget=150, thorough_budget=600),
+    "C12": dict(level="exploration", race=True, quick_count=8000, quick_budget=150, thorough_budget=600),
     "C13": dict(level="fault_enumeration", race=True, quick_count=200, quick_budget=150, thorough_budget=600),
     "C18": dict(level="exploration", race=True, quick_count=5000, quick_budget=150, thorough_budget=600),
 }
@@ -56,15 +59,15 @@ NOT_OWNED = {"reuse-error-value", "error-value-free-running", "isolation-free-ru
 
 # reach probes that a full quick run always hits on a healthy set-up (see PROBE-ZERO)
 REQUIRED_PROBES = {
-    "C05": ["encoding-checked", "acceptance-step-checked", "request-raised-mid-instruction"],
-    "C06": ["accept/", "refused", "retired"],
-    "C07": ["accepted/"],
-    "C08": ["stopped-at-breakpoint", "stopped-at-HALT", "interrupt-accepted-during-run", "breakpoint-wins-over-HALT"],
-    "C09": ["interrupt@between-repetitions", "crash-restore@element-boundary", "on-library-DumbMemory"],
-    "C10": ["crash-restore", "context-switch-at-bus-access", "type-twin/", "device-swap-mode-1", "free-running-world-under-race-detector"],
-    "C12": ["unsupported-opcode-consumed", "malformed-request@", "run-returned-halted", "callback-copies-cpu"],
+    "C05": ["encoding-checked", "acceptance-step-checked", "request-raised-mid-instruction", "write-watch-device-posts-NMI", "raised/forced", "acceptance-case-checked"],
+    "C06": ["accept/", "refused", "retired", "mode0-data-with-padding", "mode0-supplied-RET", "mode0-push-lands-on-interrupted-pc"],
+    "C07": ["accepted/", "maskable-handler-left-through-RETN", "acceptance-word-straddles-ffff-0000", "run-driven/"],
+    "C08": ["stopped-at-breakpoint", "stopped-at-HALT", "interrupt-accepted-during-run", "breakpoint-wins-over-HALT", "host-pokes-memory-between-calls", "raised/forced", "long-run-stop-after-thousands-of-steps"],
+    "C09": ["interrupt@between-repetitions", "crash-restore@element-boundary", "on-library-DumbMemory", "cpu-object-used-before-on-another-memory", "no-io-device-attached"],
+    "C10": ["crash-restore", "context-switch-at-bus-access", "type-twin/", "device-swap-mode-1", "free-running-world-under-race-detector", "worlds-without-io-device", "host-dma-pokes"],
+    "C12": ["unsupported-opcode-consumed", "malformed-request@", "run-returned-halted", "callback-copies-cpu", "write-watch-device-posts-NMI", "hostile-worlds-running-concurrently"],
     "C13": ["cancelled/", "watcher-held-in-Err-call-3", "run-calls-goroutine-accounted", "resumed-after-cancel", "runs-on-a-reused-cpu"],
-    "C18": ["breakpoint-after-call", "console-write-fault", "interrupt-inside-machine", "warning-path", "cancel-mid-run"],
+    "C18": ["breakpoint-after-call", "console-write-fault", "interrupt-inside-machine", "warning-path", "cancel-mid-run", "console-is-a-real-file", "second-program-step-driven", "machines-running-concurrently", "machine-with-default-console-and-logger"],
 }
 
 RULES = {}   # filled from rules.json (text per property: how cases are generated, what is non-trivial)
@@ -75,7 +78,7 @@ COMPONENTS = {
     "simulated": ["64 KiB memory and 256-port devices (recording, tick source)", "interrupt controller / interrupting devices",
                   "host program calling Step/Run, editing breakpoints, crashing and restoring CPUs", "console writer and warning logger (C18)",
                   "clock: bus-access tick; testing/synctest fake clock for context deadlines (C13)"],
-    "side_car_outside_family": ["Go race detector on free-running goroutines (C10 d, C13 5): runtime monitoring, not schedule-replayable",
+    "side_car_outside_family": ["Go race detector on free-running goroutines (C10 d, C13 5, C18 concurrent machines, C12 concurrent hostile worlds in short-lived processes): runtime monitoring, not schedule-replayable",
                                 "C13 'reuse' scenarios (one CPU object, late cancel of the previous Run's context): the stale watcher's schedule is the Go scheduler's, the oracle is schedule independent"],
 }
 
@@ -93,7 +96,7 @@ def prepare_module():
     modfile = gomod
     if REPO != "/repo":
         # scratch target (sensitivity self-test only): separate modfile, /verif/sim/go.mod untouched
-        modfile = os.path.join(BIN, "alt.mod")  # one scratch target at a time
+        modfile = os.path.join(BIN, ALT + ".mod")
         os.makedirs(BIN, exist_ok=True)
     cur = open(modfile).read() if os.path.exists(modfile) else ""
     if cur != want:
@@ -105,7 +108,7 @@ def prepare_module():
 def build(race):
     os.makedirs(BIN, exist_ok=True)
     modfile = prepare_module()
-    tag = "alt" if REPO != "/repo" else "repo"
+    tag = ALT if REPO != "/repo" else "repo"
     out = os.path.join(BIN, "sim-%s%s.test" % (tag, "-race" if race else ""))
     cmd = [GO, "test", "-c", "-tags", "verif", "-o", out]
     if modfile != os.path.join(SIM, "go.mod"):
@@ -230,6 +233,11 @@ def race_in_library(report):
 def crash_in_library(dump):
     """True when the goroutine that died was executing library code: the first non-runtime frame of the
     first goroutine in the dump (the running one) belongs to github.com/koron-go/z80 itself."""
+    # crashes the machine can cause on any code (memory or threads exhausted) are the sandbox's trouble, never
+    # the library's: only kinds of fatal error that code itself brings about are attributed
+    first = dump[dump.find("fatal error:"):].splitlines()[0] if "fatal error:" in dump else ""
+    if re.search(r"out of memory|cannot allocate|newosproc|thread exhaustion|pthread_create|failed to create new OS thread|mmap|resource temporarily", first + dump[:400]):
+        return False
     m = re.search(r"\ngoroutine \d+ (?:gp=\S+ m=\S+(?: mp=\S+)? )?\[running[^\]]*\]:\n", dump)
     if not m:
         return False
